@@ -27,6 +27,17 @@ CFG = {
 }
 ROOTS = ['dwop_number', 'dwop_number2']
 
+OPW_CFG = {
+    'names': {'pred_op_loclist_elem::result': 'pred_op_loclist_elem_result', 'pred_op_loclist_op::result': 'pred_op_loclist_op_result',
+              '_ZN20pred_op_loclist_elemC1Ej': 'pred_op_loclist_elem_ctor', '_ZN18pred_op_loclist_opC1Ej': 'pred_op_loclist_op_ctor'},
+    'types': {r'value_loclist_elem': 'melem', r'value_loclist_op': 'mopv', r'(struct )?Dwarf_Attribute': 'mattr', r'pred_overload<.*>|pred_overload|pred': 'empty_base'},
+    'types_are_records': {r'value_loclist_elem': True, r'value_loclist_op': True, r'(struct )?Dwarf_Attribute': True, r'pred_overload<.*>|pred_overload|pred': True},
+    'record_ctypes': ['melem', 'mopv', 'mattr', 'empty_base'],
+    'types_prelude': '#include "opw_model.h"\n',
+    'extern': {r'value_loclist_elem::get_exprlen': 'MELEM_LEN', r'value_loclist_elem::get_expr': 'MELEM_EXPR', r'value_loclist_op::get_dwop': 'MOPV_DWOP'},
+}
+OPW_ROOTS = ['pred_op_loclist_elem::result', 'pred_op_loclist_op::result', '_ZN20pred_op_loclist_elemC1Ej', '_ZN18pred_op_loclist_opC1Ej']
+
 
 def lx_jobs():
     inc = [OUT, os.path.join(vlib.VERIF, 'props'), HERE]
@@ -38,7 +49,13 @@ def lx_jobs():
 
 
 def jobs(tier):
-    return lx_jobs()
+    inc = [OUT, os.path.join(vlib.VERIF, 'props'), HERE]
+    src = [os.path.join(HERE, 'opw_harness.c'), os.path.join(OUT, 'opw_bodies.c')]
+    return lx_jobs() + [
+        Job('bounded_op_words', src, 'hb_op_words', includes=inc, kind='bounded', unwind=6, timeout=300, cbmc_args=['--object-bits', '10'], inputs=['code', 'k'],
+            note='?OP_x on an element (<= 4 operations) and on an operation, any opcode 0..255'),
+        Job('op_words_control', src, 'hb_op_words_control', includes=inc, defines=['VERIF_CONTROL'], kind='control', expect='fail', unwind=6, timeout=300,
+            cbmc_args=['--object-bits', '10'])]
 
 
 LEVEL = 'proof'
@@ -46,18 +63,19 @@ TRUSTED = ['tools/cxx2c.py lowering', 'the operand table in props/c17/lx_harness
 ASSUMPTIONS = [
     'constant, value_cst, the producers, value_die, pass_block, locexpr_producer and the dwarf_getlocation_* calls are modelled (props/c17/lx_model.h): only WHICH operand kind, WHICH stored word, signedness and radix domain are checked',
     'DWARF 5 opcodes 0xa0..0xa9, opcodes DWARF 4 does not assign and vendor opcodes other than the GNU ones listed are left unconstrained',
-    'SLICE of C17: location-list iteration (address ranges, elem/relem/length), offsets and opcodes of operations, ?OP_x, and all of the abbreviation words are NOT covered',
+    'SLICE of C17: location-list iteration (address ranges, elem/relem/length), offsets and opcodes of operations, and all of the abbreviation words are NOT covered; ?OP_x is (bounded to 4 operations per element)',
 ]
 EXPLANATION = 'Operand decoding of location-expression operations only; see DESIGN.md section 4 C17.'
 
 
 def spec_files():
-    return [os.path.join(HERE, 'lx_harness.c'), os.path.join(HERE, 'lx_model.h')]
+    return [os.path.join(HERE, f) for f in ('lx_harness.c', 'lx_model.h', 'opw_harness.c', 'opw_model.h')]
 
 
 def prepare(tier):
     lw = vlib.extract('lx', 'libzwerg/atval.cc', CFG, ROOTS, OUT)
-    return {'unit': 'libzwerg/atval.cc (locexpr_op_values)', 'functions': lw.report['functions']}
+    ow = vlib.extract('opw', 'libzwerg/builtin-dw.cc', OPW_CFG, OPW_ROOTS, OUT)
+    return {'unit': 'libzwerg/atval.cc (locexpr_op_values), libzwerg/builtin-dw.cc (?OP_x predicates)', 'functions': lw.report['functions'] + ow.report['functions']}
 
 
 NOPERANDS = {'addr': 1, 'call_ref': 1, 'const1u': 1, 'const2u': 1, 'const4u': 1, 'const8u': 1, 'constu': 1, 'const1s': 1, 'const2s': 1,
@@ -149,4 +167,14 @@ def replay_files(r):
             exp = NOPERANDS.get(m.group(1), 0)
             if int(m.group(2)) != exp:
                 bad.append('%s: DW_OP_%s yields %s operand(s), its encoding has %d' % (f, m.group(1), m.group(2), exp))
+    # ?OP_x on an element agrees with "some operation of the element is ?OP_x"
+    laws, names = [], []
+    for f in files:
+        for opn in ('fbreg', 'stack_value', 'call_frame_cfa', 'and', 'breg5', 'GNU_deref_type', 'addr', 'plus_uconst'):
+            laws.append('"%s" dwopen (|D| [D entry attribute value ?(type T_LOCLIST_ELEM) ?OP_%s] length == [D entry attribute value ?(type T_LOCLIST_ELEM) ?(elem ?OP_%s)] length)'
+                        % (os.path.join(tdir, f), opn, opn))
+            names.append((f, opn))
+    for (f, opn), (c, t) in zip(names, vlib.zw_queries(laws, OUT, dw=True)):
+        if c != 1:
+            bad.append('%s: ?OP_%s on elements disagrees with the operations they contain' % (f, opn))
     return {'reproduced': bool(bad), 'violations_on_real_library': sorted(set(bad))[:6], 'operations_checked': seen}
